@@ -37,6 +37,9 @@ where
     ///
     /// If the bounds aren't valid for the given string data then None is returned.
     pub fn new(string: Ptr<String>, bounds: Range<usize>) -> Option<Self> {
+        // The bounds need to refer to a valid UTF-8 sub-string of the data
+        string.get(bounds.clone())?;
+
         try_from_range(&bounds).map(|bounds| Self {
             data: string,
             bounds,
@@ -61,10 +64,13 @@ where
     ///
     /// If the bounds aren't valid within the current string slice, then None is returned.
     pub fn with_bounds(&self, bounds: Range<usize>) -> Option<Self> {
-        let new_bounds = (bounds.start + self.bounds.start.to_usize())
-            ..(bounds.end + self.bounds.start.to_usize());
+        let offset = self.bounds.start.to_usize();
+        let new_bounds = bounds.start.checked_add(offset)?..bounds.end.checked_add(offset)?;
 
-        if self.data.get(new_bounds.clone()).is_some() {
+        // The new bounds need to stay within the current slice
+        if new_bounds.end <= self.bounds.end.to_usize()
+            && self.data.get(new_bounds.clone()).is_some()
+        {
             try_from_range(&new_bounds).map(|bounds| Self {
                 data: self.data.clone(),
                 bounds,
@@ -100,8 +106,9 @@ where
     /// If the offset is outside of the string slice's bounds or would produce invalid UTF-8 data,
     /// then None is returned.
     pub fn split(&self, offset: usize) -> Option<(Self, Self)> {
-        let split_point = self.bounds.start.to_usize() + offset;
-        if self.data.is_char_boundary(split_point) {
+        let split_point = self.bounds.start.to_usize().checked_add(offset)?;
+        // The split point needs to be within the current slice
+        if split_point <= self.bounds.end.to_usize() && self.data.is_char_boundary(split_point) {
             if let Ok(split_point_t) = T::try_from(split_point) {
                 Some((
                     Self {
